@@ -157,7 +157,7 @@ def main(argv=None):
     # ---- (T) build, regenerate, audit
     tie_ok, tie_msg = core.extract_tables()
     hok, hmsg, hdt = core.build_harness()
-    mok, mmsg, mdt = core.lake_build(['pxmodel'])
+    mok, mmsg, mdt = core.lake_build(['pxmodel', 'pxfrag'])
     prop_targets = core.audit_imports(prop)
     pok, pmsg, pdt = core.lake_build(prop_targets)
     thms, problems, listed = ({}, ['property module did not build'], [])
@@ -271,6 +271,29 @@ def main(argv=None):
 
     # ---- evidence
     samples = [sexp.dump(c)[:1200] for c in cases[:3]]
+    # which share of the cases that went through the implementation lies inside the hypotheses of the whole-run theorems
+    frag = {}
+    try:
+        sample = cases if len(cases) <= 4000 else random.Random(seed).sample(cases, 4000)
+        fr = core.run_frag([sexp.dump(c) for c in sample], jobs=JOBS)
+        cnt = {'cases': 0, 'unparsed': 0, 'bounded': 0, 'novft': 0, 'nogenrefs': 0, 'bounded_and_nogenrefs': 0, 'bounded_and_novft': 0}
+        for cid_, o in fr.items():
+            f_ = o.get('frag')
+            if f_ is None: continue
+            cnt['cases'] += 1
+            if len(f_) == 2 and not isinstance(f_[1], list):
+                cnt['unparsed'] += 1; continue
+            d_ = {str(x[0]): x[1] for x in f_[1:] if isinstance(x, list)}
+            for k_ in ('bounded', 'novft', 'nogenrefs'):
+                cnt[k_] += 1 if d_.get(k_) == 1 else 0
+            if d_.get('bounded') == 1 and d_.get('nogenrefs') == 1: cnt['bounded_and_nogenrefs'] += 1
+            if d_.get('bounded') == 1 and d_.get('novft') == 1: cnt['bounded_and_novft'] += 1
+        frag = cnt
+        frag['meaning'] = ('bounded = C12.CaseBounded (integer literals in isize), novft = C09.CaseNoVft, nogenrefs = C09.CaseNoGenRefs: a case with '
+                           'bounded_and_nogenrefs lies inside the hypotheses of the whole-run theorems (case_* lifts, C09Vft, C02Global, Exec); the others are '
+                           'covered by the per-item theorems and by the correspondence only')
+    except Exception as e:
+        frag = {'error': repr(e)[:200]}
     ev = {
         'property_id': prop, 'tier': tier, 'seed': seed, 'level': 'proof',
         'coverage': {
@@ -284,6 +307,7 @@ def main(argv=None):
             'traces_validated_against_impl': stats.get('compared', 0),
             'input_distribution': stats.get('dist', {}),
             'second_phase': stats.get('extra', {}),
+            'theorem_fragment': frag,
             'model_vs_impl_disagreements': len(k_fail), 'oracle_failures_on_impl': len(o_fail),
             'known_findings_printed': known_printed,
             'proof_problems': t_problems,
